@@ -26,6 +26,7 @@ type Thread struct {
 	panicMsg  string
 	abandoned bool
 	sleeping  bool
+	wakeAt    *Term
 }
 
 var sleepTok = new(int)
@@ -306,6 +307,22 @@ func (p *Path) resolveProbe() bool {
 			}
 			return true
 		}
+	}
+	// timed sleepers: advance the virtual clock to the earliest wake-up time
+	var best *Thread
+	for _, t := range p.threads {
+		if t.state == stBlocked && t.sleeping && t.wakeAt != nil {
+			if best == nil || p.branch(p.tt.Cmp(OpSlt, t.wakeAt, best.wakeAt)) {
+				best = t
+			}
+		}
+	}
+	if best != nil {
+		p.clock = p.tt.Ite(p.tt.Cmp(OpSlt, p.clock, best.wakeAt), best.wakeAt, p.clock)
+		best.sleeping = false
+		best.wakeAt = nil
+		best.state = stRunnable
+		return true
 	}
 	// a thread waiting for quiescence becomes runnable when nothing else can run
 	for _, t := range p.threads {
